@@ -654,14 +654,25 @@ where
                 return err(format!("variable out of range (line {line_no})"));
             };
 
+            let mut edges = EdgeVecDropGuard::new(manager, Vec::with_capacity(children.len()));
             for &child in &children {
-                let child = child.unsigned_abs();
-                if child >= node_id {
+                let abs = child.unsigned_abs();
+                if abs >= node_id {
                     return err(format!(
-                        "children ids must be less than node ({child} >= {node_id}, line {line_no})",
+                        "children ids must be less than node ({abs} >= {node_id}, line {line_no})",
                     ));
                 }
-                let child_level = manager.get_node(&nodes[child - 1]).level();
+                let e = manager.clone_edge(&nodes[abs - 1]);
+                let e = if child < 0 {
+                    match complement(manager, e) {
+                        Ok(e) => e,
+                        Err(_) => return Err(io::ErrorKind::OutOfMemory.into()),
+                    }
+                } else {
+                    e
+                };
+                let child_level = manager.get_node(&e).level();
+                edges.push(e);
                 if level >= child_level {
                     return err(format!(
                         "node level must be less than the children's levels ({level} >= {child_level}, line {line_no})",
@@ -669,20 +680,8 @@ where
                 }
             }
 
-            <M::Rules as DiagramRules<_, _, _>>::reduce(
-                manager,
-                level,
-                children.iter().map(|&child| {
-                    debug_assert_ne!(child, 0);
-                    let e = manager.clone_edge(&nodes[child.unsigned_abs() - 1]);
-                    if child < 0 {
-                        complement(manager, e).unwrap()
-                    } else {
-                        e
-                    }
-                }),
-            )
-            .then_insert(manager, level)?
+            <M::Rules as DiagramRules<_, _, _>>::reduce(manager, level, edges.into_vec())
+                .then_insert(manager, level)?
         };
         nodes.push(node);
 
@@ -762,7 +761,6 @@ where
             manager,
             manager.clone_edge(&nodes[idx(&mut input, node_id, e_code)?]),
         );
-        let e_level = manager.get_node(&e).level();
         let e = if e_complement {
             match complement(manager, e.into_edge()) {
                 Ok(e) => EdgeDropGuard::new(manager, e),
@@ -773,6 +771,7 @@ where
         } else {
             e
         };
+        let e_level = manager.get_node(&e).level();
 
         let vid = match var_code {
             Code::Terminal => unreachable!(),
